@@ -10,6 +10,9 @@
       (XTL_REPO / VERIF_BUILD point the driver at the worktree and a private build directory; the driver, harnesses and
       oracles are those of a private copy of /verif's HEAD commit taken at call time, so edits made meanwhile do not interfere) and
       records the outcome in meta.json.
+  tools/seedeval.py benign <agent-out-dir> <i> <name> PROP...
+      A behaviour-preserving change (ok<i>.diff): the repository suite must pass with it and the named checks must stay
+      silent (exit 0) against a worktree with it applied; stored under /verif/benign/<name>/.
   tools/seedeval.py table        regenerates seeded/README.md from the meta.json files
 
 Nothing is ever applied to /repo's own working tree by this script.
@@ -160,6 +163,65 @@ def detect(name, props, tier, keep=False, at="HEAD"):
     return 0
 
 
+BENIGN = os.path.join(VERIF, "benign")
+
+
+def benign(outdir, i, name, props, tier="quick"):
+    """A behaviour-preserving change: the repository suite must pass with it and the checks must stay silent."""
+    ensure_me()
+    patch = os.path.join(outdir, "ok%s.diff" % i)
+    notes_p = os.path.join(outdir, "ok%s.txt" % i)
+    notes = open(notes_p).read() if os.path.exists(notes_p) else ""
+    r = sh(["git", "-C", ME, "apply", "--check", patch])
+    if r.returncode != 0:
+        print(name, "patch does not apply:", r.stdout[-300:]); return 1
+    sh(["git", "-C", ME, "apply", patch])
+    try:
+        sh("cmake --build %s/_build -j 8 2>&1 | tail -3" % ME)
+        t = sh("ctest --test-dir %s/_build -j 8 --timeout 900 2>&1 | tail -4" % ME)
+        suite_ok = "100% tests passed" in t.stdout
+    finally:
+        sh(["git", "-C", ME, "checkout", "--", "."])
+    d = os.path.join(BENIGN, name)
+    os.makedirs(d, exist_ok=True)
+    shutil.copy(patch, os.path.join(d, "patch.diff"))
+    open(os.path.join(d, "notes.txt"), "w").write(notes)
+    meta = dict(name=name, kind="behaviour-preserving change written by an independent sub-agent that saw only the property text",
+                properties=props, test_suite_with_patch="24/24 ctest targets pass" if suite_ok else "FAILS", runs=[])
+    mp = os.path.join(d, "meta.json")
+    if os.path.exists(mp):
+        meta["runs"] = json.load(open(mp)).get("runs", [])
+        meta["verdict"] = json.load(open(mp)).get("verdict", "")
+    tag = "%s_%d" % (name, os.getpid())
+    wt = "/tmp/wt/ben_" + tag
+    snap = "/tmp/vsnap_" + tag
+    head = sh(["git", "-C", "/repo", "rev-parse", "HEAD"]).stdout.strip()
+    r = sh(["git", "-C", "/repo", "worktree", "add", "--detach", wt, head])
+    assert r.returncode == 0, r.stdout
+    try:
+        r = sh(["git", "-C", wt, "apply", patch]); assert r.returncode == 0, r.stdout
+        os.makedirs(snap)
+        sh("git -C %s archive HEAD | tar -x -C %s" % (VERIF, snap))
+        vhead = sh(["git", "-C", VERIF, "rev-parse", "--short", "HEAD"]).stdout.strip()
+        for prop in props:
+            env = dict(os.environ, XTL_REPO=wt, VERIF_BUILD=snap + "/build")
+            t0 = time.time()
+            r = subprocess.run([snap + "/check", prop, "--tier", tier], cwd=snap, env=env, stdout=subprocess.PIPE, stderr=subprocess.PIPE, text=True, errors="replace")
+            viol = [l.replace(snap, "/verif") for l in r.stdout.splitlines() if l.startswith("VIOLATION") or l.startswith("  signature=") or l.startswith("MACHINERY")]
+            rec = dict(check="./check %s --tier %s" % (prop, tier), verif_commit=vhead, exit=r.returncode, silent=(r.returncode == 0), output=viol[:8], wall_s=round(time.time() - t0, 1))
+            if r.returncode == 2:
+                rec["machinery_failure"] = r.stdout[-400:] + r.stderr[-1200:]
+            meta["runs"] = [x for x in meta["runs"] if not (x["check"] == rec["check"] and x["verif_commit"] == vhead)] + [rec]
+            print(name, prop, "exit", r.returncode, "silent" if rec["silent"] else "ALARM", "suite", "ok" if suite_ok else "FAILS", "%.0fs" % rec["wall_s"], flush=True)
+            for l in viol[:4]:
+                print("   ", l[:300])
+    finally:
+        sh(["git", "-C", "/repo", "worktree", "remove", "--force", wt])
+        shutil.rmtree(snap, ignore_errors=True)
+    json.dump(meta, open(mp, "w"), indent=1)
+    return 0
+
+
 def table():
     rows = []
     for mp in sorted(glob.glob(os.path.join(SEEDED, "*", "meta.json"))):
@@ -208,6 +270,8 @@ def main():
             elif a[i] == "--at": at = a[i + 1]; i += 2
             else: rest.append(a[i]); i += 1
         return detect(rest[0], rest[1:], tier, keep, at)
+    if a[0] == "benign":
+        return benign(a[1], a[2], a[3], a[4:])
     if a[0] == "table":
         return table()
     print(__doc__); return 2
